@@ -705,6 +705,28 @@ theorem insertIds_spec (k : Kind) (l : List Name) : ∀ (s : State),
     simp only [omKeys_append, omKeys_cons, omKeys_nil, List.count_append, List.count_cons, List.count_nil]
     by_cases ha : n = a <;> simp [ha] <;> omega
 
+/-- `_insert_id(name, ctx=k0)` followed by the loop over the outputs with `ctx=k1` -/
+theorem insertId_insertIds_spec (k0 k1 : Kind) (n : Name) (rest : List Name) (s : State)
+    (h : ∀ x ∈ n :: rest, x ≠ "time" ∧ x ∉ omKeys s.ids) (hnd : (n :: rest).Nodup) :
+    ∃ s', andThen (insertId n k0 s) (insertIds k1 rest) = (s', .ok ()) ∧ s'.content = s.content ∧
+      ∀ a, idc s' a = idc s a + (n :: rest).count a := by
+  have hn := h n (by simp)
+  simp only [List.nodup_cons] at hnd
+  simp only [insertId_closed, hn.1, hn.2, if_false, andThen]
+  have hrest : ∀ x ∈ rest, x ≠ "time" ∧ x ∉ omKeys ({ s with ids := s.ids ++ [(n, k0)] } : State).ids := by
+    intro x hx
+    refine ⟨(h x (by simp [hx])).1, ?_⟩
+    simp only [omKeys_append, omKeys_cons, omKeys_nil, List.mem_append, List.mem_singleton]
+    rintro (hm | rfl)
+    · exact (h x (by simp [hx])).2 hm
+    · exact hnd.1 hx
+  obtain ⟨s', h1, h2, h3⟩ := insertIds_spec k1 rest _ hrest hnd.2
+  refine ⟨s', h1, h2, fun a => ?_⟩
+  rw [h3 a]
+  unfold idc
+  simp only [omKeys_append, omKeys_cons, omKeys_nil, List.count_append, List.count_cons, List.count_nil]
+  by_cases ha : n = a <;> simp [ha] <;> omega
+
 theorem removeIds_spec (l : List Name) : ∀ (s : State),
     (∀ x ∈ l, x ∈ omKeys s.ids) → l.Nodup →
     ∃ s', removeIds l s = (s', .ok ()) ∧ s'.content = s.content ∧
@@ -764,11 +786,13 @@ theorem addSurrogate_good (n su) : Good (addSurrogate n su) := by
   · rw [hc]
     simp only
     obtain ⟨hfresh, hnd⟩ := (checkNewIds_ok_iff _ _).mp hc
-    obtain ⟨s', h1, h2, h3⟩ := insertIds_spec "surrogate" (n :: su.outs) s0 hfresh hnd
-    have hexp : andThen (insertId n "surrogate" s0)
-        (fun s => andThen (insertIds "surrogate" su.outs s) (putSur n su))
-        = andThen (insertIds "surrogate" (n :: su.outs) s0) (putSur n su) := by
-      simp only [insertIds]; rw [andThen_assoc]
+    obtain ⟨s', h1, h2, h3⟩ := insertId_insertIds_spec (ctxOf .add_surrogate 0) (ctxOf .add_surrogate 1)
+      n su.outs s0 hfresh hnd
+    have hexp : andThen (insertId n (ctxOf .add_surrogate 0) s0)
+        (fun s => andThen (insertIds (ctxOf .add_surrogate 1) su.outs s) (putSur n su))
+        = andThen (andThen (insertId n (ctxOf .add_surrogate 0) s0) (insertIds (ctxOf .add_surrogate 1) su.outs))
+            (putSur n su) := by
+      rw [andThen_assoc]
     rw [hexp, h1]
     simp only [andThen, putSur, ok]
     refine ⟨?_, fun e he => by cases he⟩
@@ -860,7 +884,7 @@ theorem updateSurrogate_good (n u) : Good (updateSurrogate n u) := by
         · simp only [ho, if_false] at h3
           apply (hfresh x hx).2
           refine List.mem_filter.mpr ⟨List.count_pos_iff.mp (by omega), by simpa using ho⟩
-      obtain ⟨s2, h2, h2c, h2i⟩ := insertIds_spec "surrogate" (u.apply old).outs s1 hfresh1 hnd
+      obtain ⟨s2, h2, h2c, h2i⟩ := insertIds_spec (ctxOf .update_surrogate 0) (u.apply old).outs s1 hfresh1 hnd
       rw [h1]
       simp only [andThen]
       rw [h2]
@@ -1630,6 +1654,7 @@ theorem step_good (op : Op) : Good (fun s => step s op) := by
   | add_readout n f => exact addReadout_good n f
   | remove_readout n => exact removeReadout_good n
   | add_surrogate n su => exact addSurrogate_good n su
+  | add_surrogate_kw n su u => exact addSurrogate_good n (u.over su)
   | update_surrogate n u => exact updateSurrogate_good n u
   | remove_surrogate n => exact removeSurrogate_good n
   | add_data n v => exact addData_good n v
@@ -1639,12 +1664,19 @@ theorem step_good (op : Op) : Good (fun s => step s op) := by
 theorem step_exact (s : State) (op : Op) (hs : Exact s) : Exact (step s op).1 :=
   (step_good op s hs).1
 
+/-- `stepS` adds signatures to what `step` did: content, ids, cache and outcome are those of `step` -/
+theorem stepS_same (s : State) (op : Op) (given) : Same (step s op).1 (stepS s op given).1 := by
+  unfold stepS; simp only; split <;> exact ⟨rfl, rfl⟩
+
+theorem stepS_snd (s : State) (op : Op) (given) : (stepS s op given).2 = (step s op).2 := by
+  unfold stepS; simp only; split
+  · rename_i h; exact h.symm
+  · rename_i e h; exact h.symm
+
 theorem query_same (s : State) (q : Query) : Same s (query s q).1 := by
-  have h := ensureCache_same s
-  unfold query
-  split
-  · rename_i s1 e heq; rw [heq] at h; exact h
-  · rename_i s1 c heq; rw [heq] at h; exact h
+  rcases query_fst s q with h1 | h1 <;> rw [h1]
+  · exact Same.refl s
+  · exact ensureCache_same s
 
 theorem exact_init : Exact init := by
   refine ⟨fun a => ?_, fun a => ?_, ?_⟩ <;> simp [idc, cc, init, contentNames, surOuts]
